@@ -287,17 +287,22 @@ CLAIMS = {
 ADDED = {
     "C01": "Also: reference summaries of the stable sort and the rule slices (SORTSL) and the frozen dependence order "
            "of the statements of the table construction (DEPORD-T); symbol lookup (REJ-2) and bitset primitives (BITSET).",
-    "C02": "Also: no user functor is copied anywhere on the parse path (FCOPY), the fixed-capacity vector primitives "
+    "C02": "Also: the three buffers' get_view (BUF); no user functor is copied anywhere on the parse path (FCOPY), the fixed-capacity vector primitives "
            "match their reference summaries (CVEC), dependent statements of the driver keep their order (DEPORD), the "
            "helper functors' type-level witness (HLP).",
-    "C04": "Also: reference summaries of the pattern front end and of every term getter the lexer builder reads (REGEXFE, "
+    "C04": "Also: reference summaries of the automaton construction (DFAB), of the pattern front end and of every term getter the lexer builder reads (REGEXFE, "
            "TERMAPI), dependence order of the statements of matcher and automaton builder (DEPORD), width of every "
            "carrier of a lexeme length (WIDTH), the caller's buffer is never taken by value or copied (BUFREF).",
-    "C05": "Also: precedences are signed ints end to end (WIDTH over the copy-flow class of term::precedence), every "
+    "C05": "Also: the scan for a rule's last term reaches position 0 (CALC range); precedences are signed ints end to end (WIDTH over the copy-flow class of term::precedence), every "
            "term kind defaults to precedence 0 / no associativity (DEFARG), getters' reference summaries (TERMAPI).",
     "C06": "Also: CVEC reference summaries, DEPORD over matcher and driver, WIDTH (lexeme length, stack depth), BUFREF, "
-           "the reduce ordering rules ONCE/LOCK.",
+           "the reduce ordering rules ONCE/LOCK, POSB (a right-side position is read only after it was compared with the "
+           "rule's length) and the driver relation DRV/MODES (the discard loop ends at end of input).",
     "C07": "Also: no library function takes or copies the caller's buffer by value (BUFREF).",
+    "C11": "Also: reference summaries of the listing functions (DIAG) and the operand after 'prefer shift over reduce(' must "
+           "be computed for this column, not carried from another one.",
+    "C12": "Also: the size analyser and the builder read a pattern with the same parser and options (REJ-4).",
+    "C19": "The type-level witness is decided in a pre-phase, before the witness grammars are extracted.",
     "C08": "Also: the fixed-capacity stack accounting for the recovery path (CAP-S, with its recorded finding) and the "
            "dependence order of the driver's statements (DEPORD); table rules as necessary conditions.",
     "C09": "Also: the names printed come from the term getters (TERMAPI), lengths and line/column counters do not wrap "
@@ -309,9 +314,11 @@ ADDED = {
            "also be called without the context).",
     "C15": "Also IMM-10: rules, terms and nterms own their members in every instantiation (no reference members; witness "
            "with lvalue functors), and the library's own functors move only from rvalues (HLP-T).",
-    "C16": "Also: the name table of the trace is indexed through char_to_idx (CHARIDX).",
+    "C16": "Also: the name table of the trace is indexed through char_to_idx (CHARIDX), every path of get_current_term that "
+           "produces a term announces it exactly once after storing it (TRACE-R), no stateful stream manipulator is inserted "
+           "into the caller's stream (EFF-V5).",
     "C17": "Also: reference summaries of the pattern lexer / character decoding and of the term getters (REGEXFE, TERMAPI).",
-    "C18": "Also: WIDTH over the returned length, TERMAPI / DEFARG for custom_term, white-space and capacity rules.",
+    "C18": "Also: WIDTH over the returned length, TERMAPI / DEFARG for custom_term, BUF, white-space and capacity rules.",
 }
 
 NOT_APPLICABLE = {
